@@ -153,6 +153,13 @@ theorem C13_erase (env : Containers.Env) :
     LSession.init.erase = Session.init :=
   ⟨fun _ _ _ h => step_erase env h, fun ops s h => run_erase env ops s h, rfl⟩
 
+/-- **… and it rejects nothing else.**  Under the lifetime precondition (`LifetimePre`: the command is not
+    `dom-reset pool`, and a cross-document `dom-move` / `dom-swap` does not move a subtree holding a view into a parse
+    buffer) the ledger interpreter accepts exactly the commands `Model.Dom` accepts, with the same erased result. -/
+theorem C13_complete (env : Containers.Env) (s : LSession) (op : Op) (hpre : LifetimePre s op) :
+    (lstep env s op).map LSession.erase = (step env s.erase op).map (·.1) :=
+  step_erase_eq env s op hpre
+
 /-! ## the lifetime precondition on cross-document moves -/
 
 /-- a stub reader for the examples: text `[1]` is `["abcd"]`, anything else is `[]` -/
@@ -161,7 +168,7 @@ def env1 : Containers.Env where
   dump := fun _ _ _ => ""
 
 /-- `dom-move 1 / 0 /i0` WITHOUT the lifetime check: what the C++ does -/
-def unsafeMove (s : LSession) : Option LSession :=
+def uncheckedMove (s : LSession) : Option LSession :=
   (s.docs[1]?).bind fun D => (s.docs[0]?).bind fun S => (lmoveNode2 D.root [] S.root [.idx 0]).map fun r =>
     { s with docs := (s.docs.set 1 { D with root := r.1 }).set 0 { S with root := r.2.1 },
              ledger := s.ledger.commit s.ledger.next r.2.2 }
@@ -169,7 +176,7 @@ def unsafeMove (s : LSession) : Option LSession :=
 def parsed : LSession := lrun env1 LSession.init [.reset .simple, .parse 0 [1]]
 
 /-- the state after the unchecked move followed by a re-parse of document 0 -/
-def dangling : Option LSession := (unsafeMove parsed).bind fun s => lstep env1 s (.parse 0 [2])
+def dangling : Option LSession := (uncheckedMove parsed).bind fun s => lstep env1 s (.parse 0 [2])
 
 /-- **Why cross-document moves of parsed strings are excluded.**  `dom-parse 0 ["abcd"]`, then moving the string into
     document 1 and re-parsing document 0: the string in document 1 still points into block 0 (the first parse buffer),
@@ -219,7 +226,8 @@ example : ((lrun env1 LSession.init [.reset .simple, .node 0 [] (.set .obj),
       .node 0 [] (.add [97] (.str [1, 2]) true)]).ledger.live,
     (lrun env1 LSession.init [.reset .simple, .node 0 [] (.set .obj), .node 0 [] (.add [97] (.str [1, 2]) true),
       .node 0 [.mem 0] (.set (.str [5]))]).ledger.live) = ([0, 1, 2], [1, 2, 3]) := by decide +kernel
-/-- both interpreters accept every command of `history` -/
-example : Agree env1 LSession.init history := agree_of_agreeB env1 history LSession.init (by decide +kernel)
+/-- both interpreters accept every command of `history`: `agreeB` is the executable form of `Agree`
+    (`agree_of_agreeB`), so `C13_erase` applies to this run -/
+example : agreeB env1 LSession.init history = true := by decide +kernel
 
 end Sonic.Props.C13
